@@ -28,6 +28,17 @@ UnitNames == DOMAIN Units
 Compatible(u, v) == Units[u].d = Units[v].d
 Funcs == [sum |-> "same1", mean |-> "same1", max |-> "same1", cumsum |-> "same1", sort |-> "same1", negative |-> "same1", absolute |-> "same1",
           median |-> "same1", ptp |-> "same1", diff |-> "same1", std |-> "same1",
+          amax |-> "same1", amin |-> "same1", min |-> "same1", nanmax |-> "same1", nanmin |-> "same1", nansum |-> "same1", nanmean |-> "same1",
+          nanmedian |-> "same1", nancumsum |-> "same1", around |-> "same1", rint |-> "same1", floor |-> "same1", ceil |-> "same1", trunc |-> "same1",
+          fabs |-> "same1", squeeze |-> "same1", ravel |-> "same1", flip |-> "same1", transpose |-> "same1", nanstd |-> "same1", average |-> "same1",
+          conjugate |-> "same1", positive |-> "same1", ediff1d |-> "same1", copy |-> "same1",
+          not_equal |-> "cmp2", less_equal |-> "cmp2", greater_equal |-> "cmp2",
+          matmul |-> "mul2",
+          nanvar |-> "pow2",
+          arccos |-> "itrig", arcsinh |-> "itrig", arctanh |-> "itrig",
+          sinh |-> "trig", cosh |-> "trig", tanh |-> "trig",
+          exp2 |-> "dimless", log2 |-> "dimless", log1p |-> "dimless",
+          isinf |-> "bare1", isreal |-> "bare1", iscomplex |-> "bare1", signbit |-> "bare1", argmin |-> "bare1", size |-> "bare1", ndim |-> "bare1",
           add |-> "cons2", subtract |-> "cons2", maximum |-> "cons2", minimum |-> "cons2", hypot |-> "cons2", where |-> "cons2", append |-> "cons2",
           concatenate |-> "cons2", copysign |-> "cons2", nextafter |-> "cons2",
           less |-> "cmp2", greater |-> "cmp2", equal |-> "cmp2", isclose |-> "cmp2", allclose |-> "cmp2",
